@@ -23,18 +23,7 @@ def groups(tier, seed):
     return [f"regenerate:{c.name}" for c in corpus.cases(tier)]
 
 
-def cond_checks(t, acc):
-    if t.kind == "tr":
-        if isinstance(t.choices, dict):
-            for v in t.choices.values():
-                cond_checks(v, acc)
-    elif t.kind == "scan":
-        cond_checks(t.traces, acc)
-    elif t.kind == "cond":
-        acc.append(t.check)
-        cond_checks(t.trs[0], acc)
-        cond_checks(t.trs[1], acc)
-    return acc
+cond_checks = gfi.cond_checks
 
 
 def state_leaves(p, st, prefix=()):
@@ -104,7 +93,7 @@ def run_group(g, gid):
         unsel = lambda p: not sel_p(p)
         wref = gfi.sub(ref_weight(case.prog, ref_new, unsel), ref_weight(case.prog, ref_old, unsel))
         g.eq(f"regenerate{tag}: weight == change in joint log density - change in log prior of the selected choices",
-             w, wref, A + same_branch)
+             w, wref, A + same_branch, cases=gfi.check_cases(ref_old))
         if spec.kind == "none":
             g.eq(f"regenerate{tag}: empty selection, unchanged args: weight 0", w, sj.obj(sj.RV(0)),
                  A + [solve.eq_trees((tuple(args_s), kw_s), (tuple(a_old), dict(kw_old)))])
